@@ -127,6 +127,7 @@ class Item:
         self.stored = []            # list of (text, is_ins, tags, kf, label)
         self.slice_anchors = None   # (start_re, end_re)
         self.trusted = False        # has #[verifier::external_body]
+        self.drop_body = False
         self.name = path_text.split('::')[-1].strip().split()[-1]
         self.src_range = None
         self.sha256 = None
@@ -230,6 +231,9 @@ class Unit:
                 cur.name = s.split(None, 1)[1]
             elif s == '//@keep-vis':
                 cur.keep_vis = True
+            elif s == '//@drop-body':
+                # a real fn left under an assumed contract (external_body): its body is not needed and is dropped
+                cur.drop_body = True
             elif s.startswith('//@rule '):
                 cur.named_rules.append(s.split()[1])
             else:
@@ -520,8 +524,8 @@ class Unit:
                 raise UnitError('%s: %s' % (self.name, e))
             lowered = self._lower(it, text, bo)
             woven = self._weave(it, seg, lowered, first_line, kf_on)
-            if seg in isolate:
-                res = [Line('#[verifier::external_body] // isolated: body not processable, contract assumed for callers', 'raw')]
+            if seg in isolate or it.drop_body:
+                res = [] if it.drop_body else [Line('#[verifier::external_body] // isolated: body not processable, contract assumed for callers', 'raw')]
                 for l in woven:
                     if 'body_open' in l.flags:
                         res.append(Line(l.text[:len(l.text) - len(l.text.lstrip())] + '{ unimplemented!() }', 'raw', (), None, None, seg))
@@ -599,7 +603,7 @@ class Unit:
         """Strip every inserted line and compare with a fresh lowering of /repo."""
         cache = {}
         for idx, it in enumerate(self.items):
-            if idx in skip:
+            if idx in skip or it.drop_body:
                 continue
             text, first_line, bo = self._extract(it, cache)
             lowered = [l[0] for l in self._lower(it, text, bo)]
